@@ -34,6 +34,10 @@ def c03(tier):
     return runs
 
 
+def c03_all(tier):
+    return c03(tier) + s2_errors(3, tier)
+
+
 def c15(tier):
     runs = []
     top = 2 if tier == "quick" else 3
@@ -84,25 +88,66 @@ def s1_parser(harness, done, tier, qn=2, tn=3, sig_extra=True):
     return runs
 
 
+CUT = ["(*github.com/cloudspannerecosystem/memefish.Parser).handleError"]
+EXPR, TYPE, QUERY, STMT = 3, 4, 2, 0
+
+
+def s2(prop, shape, v, m, entry, cut=False):
+    r = dict(harness="verifHarness_S2", args=[prop, shape, v, m, entry])
+    if cut:
+        r["cut"] = CUT
+    return r
+
+
+def s2_accepting(prop, tier):
+    """S2 runs for properties conditional on an error-free parse (error paths cut)."""
+    q = tier == "quick"
+    runs = [
+        s2(prop, 2, 0, 1, EXPR, True),                 # operand x operator x operand
+        s2(prop, 0, 0, 3 if q else 4, EXPR, True),     # generic expression tokens
+        s2(prop, 0, 3, 4 if q else 5, TYPE, True),     # type tokens
+        s2(prop, 4, 3, 3 if q else 4, EXPR, True),     # CAST(a AS <type tokens>)
+        s2(prop, 1, 4, 3 if q else 4, QUERY, True),    # SELECT <query tokens>
+        s2(prop, 3, 4, 3 if q else 4, STMT, True),     # SELECT 1 FROM <query tokens>
+    ]
+    return runs
+
+
+def s2_errors(prop, tier):
+    """S2 runs that keep error paths (recovery is the subject)."""
+    q = tier == "quick"
+    m = 3 if q else 4
+    runs = [s2(prop, 0, 5, m, e) for e in (EXPR, TYPE, QUERY, STMT)]
+    runs.append(s2(prop, 1, 5, m - 1 if q else m, STMT))
+    runs.append(s2(prop, 4, 5, m - 1 if q else m, EXPR))
+    runs.append(s2(prop, 2, 0, 1, EXPR))
+    return runs
+
+
+def c10(tier):
+    runs = s1_parser("verifHarness_C10", "C10/bad", tier, sig_extra=False)
+    return runs + s2_errors(10, tier)
+
+
 def c01(tier):
     runs = s1_parser("verifHarness_C01", "C01/rejected", tier)
     k = 2 if tier == "quick" else 3
     for form in range(8):
         for n in range(0, k + 1):
             runs.append(dict(harness="verifHarness_C01_lit", args=[n, form]))
-    return runs
+    return runs + s2_accepting(1, tier)
 
 
 def c04(tier):
-    return s1_parser("verifHarness_C04", "C04/done", tier)
+    return s1_parser("verifHarness_C04", "C04/done", tier) + s2_errors(4, tier)
 
 
 def c05(tier):
-    return s1_parser("verifHarness_C05", "C05/done", tier)
+    return s1_parser("verifHarness_C05", "C05/done", tier) + s2_accepting(5, tier) + s2_errors(5, tier)[:4]
 
 
 def c09(tier):
-    return s1_parser("verifHarness_C09", "C09/error", tier)
+    return s1_parser("verifHarness_C09", "C09/error", tier) + s2_errors(9, tier)
 
 
 PROPS = {
@@ -110,7 +155,7 @@ PROPS = {
                 bounds={"quick": "all byte strings (256 values per byte) of length <= 3 from the initial lexer state and length <= 2 after 'a.' (dot-identifier mode); all strings of length 4 over the 24-symbol alphabet",
                         "thorough": "all byte strings of length <= 4 (and <= 3 after 'a.'); length 5 over the 24-symbol alphabet"},
                 outside="longer inputs"),
-    "C03": dict(level="model_checking", runs=c03,
+    "C03": dict(level="model_checking", runs=c03_all,
                 bounds={"quick": "all byte strings of length <= 2 for the nine Parse* entry points, <= 3 for SplitRawStatements and the NextToken loop",
                         "thorough": "all byte strings of length <= 3 for the nine Parse* entry points, <= 4 for SplitRawStatements and the NextToken loop"},
                 outside="longer inputs; stack exhaustion by deep nesting"),
@@ -133,6 +178,10 @@ PROPS = {
                 bounds={"quick": "S1: all byte strings of length <= 2 on all nine entry points; length 3 over the 24-symbol alphabet for ParseExpr/ParseType",
                         "thorough": "S1: all byte strings of length <= 3; length 4 over the 24-symbol alphabet"},
                 outside="longer inputs"),
+    "C10": dict(level="model_checking", runs=cutpanics(c10), reach=["C10/bad", "C10/nobad"],
+                bounds={"quick": "S1: all byte strings of length <= 2 on all entry points; S2: recovery soups of 3 slots over a 24-entry vocabulary in expression, type, query and statement context (2 slots after 'SELECT ' and inside CAST(a AS ...)); operand x operator x operand matrix",
+                        "thorough": "S1: length <= 3; S2: soups of 4 slots"},
+                outside="longer inputs; Bad nodes only reachable through constructs outside the vocabularies"),
     "C20": dict(level="model_checking", runs=cutpanics(c20),
                 bounds={"quick": "all buffers of <= 5 bytes x all pairs 0<=pos<=end<=len; error prefix for all inputs of <= 2 bytes on every Parse* entry",
                         "thorough": "all buffers of <= 7 bytes x all pairs; error prefix for all inputs of <= 3 bytes"},
